@@ -151,6 +151,8 @@ def interpret(desc, v, tok, forced=frozenset()):
             if 'poison' in acts or tag in forced:
                 return ('EXC', 'BatchBoom', (tag, AnyBatchWith(t, tag)))
             return (tag, v)
+        if 'return-exc' in acts:
+            return ('EXC', 'Boom', (tag, t))
         if 'fail' in acts:
             cls = next((arg for a, arg in plan_for(tok, tag) if a == 'fail'), None)
             if cls == 'const':
